@@ -2,15 +2,18 @@
 
 use std::cell::RefCell;
 
+pub mod c13;
 pub mod dump;
 pub mod engine;
 pub mod forest;
 pub mod gen;
 pub mod interp;
+pub mod numerics;
 pub mod oracle_search;
 pub mod props;
 pub mod queries;
 pub mod runner;
+pub mod sched;
 pub mod script;
 pub mod spec;
 pub mod values;
